@@ -14,8 +14,8 @@ difference is the exact Jacobian column, hence Cov(samples | root) = J J^T.  Ass
   independence  (J J^T)[a,b,:,a',b',:] == 0  for a != a'
   batchmix      (J J^T)[a,b,:,a,b',:]  == 0  for b != b'
 
-Tolerances (everything is derived below in `_tolerances`, nothing is statistical):
-  * root accuracy, propagated through the recipe structure by `_err` (sums add, Kronecker / Hadamard products use the
+Tolerances (derived in `_tolerances` / `_bounds`, nothing is statistical):
+  * root accuracy, propagated through the recipe structure by `_bounds` (sums add, Kronecker / Hadamard products use the
     product rule, interpolation multiplies by ||W||^2, ...).  At every node `own = eps_abs + eps_rel * ||A_node||_2` with
       eps_rel = C_DIRECT * u * n_max                       backward error of Cholesky / eigh / exact diagonal roots
               + 2e-6    if a Lanczos root was taken        (documented `tridiagonal_jitter` 1e-6 * min diag T <= 1e-6 lambda_max)
@@ -46,7 +46,7 @@ from lov.core import HarnessError, Violation
 ID = "C18"
 RULE = (
     "case = (PSD/PD operator recipe, head chosen first among the classes that specialise sampling {Diag, ConstantDiag, "
-    "Identity, KroneckerDiag, BlockDiag, BlockInterleaved, SumBatch, Interpolated (right interpolation slots permuted), "
+    "Identity, KroneckerDiag, BlockDiag, BlockInterleaved, SumBatch, Interpolated (distinct indices per row, right slots rotated), "
     "PsdSum} or the generic root-based path {Dense, Minimal, Toeplitz, Kronecker, Root, LowRankRoot, Chol, Sum, SumKronecker, "
     "ConstantMul, Mul, Masked, BatchRepeat, Kernel, KeOps, AddedDiag, LowRankRootAddedDiag, KroneckerAddedDiag}; n<=6, "
     "nesting<=3, batch in {(),(1,),(2,),(3,),(2,1),(1,2),(2,2)}, f64/f32; k in {1,2,3} (capped so that <= ~75 normal "
@@ -667,7 +667,45 @@ def _reference(case, op_for_precond=None):
     return refmodel.dense(r)
 
 
+def _psd_subrecipes(r):
+    """Proper sub-recipes that are themselves PSD operators (bottom-up), for compositional blame (DESIGN 1.6.5)."""
+    op = r["op"]
+    if op in SUM_NODES or op in ("Kronecker", "KroneckerDiag", "Mul"):
+        cs = list(r["args"])
+    elif op in ("BlockDiag", "BlockInterleaved", "SumBatch", "BatchRepeat", "Masked", "ConstantMul", "Interpolated"):
+        cs = [r["base"]]
+    else:
+        cs = []
+    out = []
+    for c in cs:
+        out.extend(_psd_subrecipes(c))
+        out.append(c)
+    return out
+
+
 def check(case):
+    """Run the oracle; on a violation attribute it to the smallest failing PSD sub-recipe (same k / settings cell)."""
+    try:
+        return _check(case)
+    except Violation as v:
+        if case.get("mode", "sample") != "sample":
+            raise
+        for sub in _psd_subrecipes(case["recipe"]):
+            subcase = dict(case, recipe=sub)
+            if "max_root_decomposition_size" in subcase.get("cell", {}):
+                subcase["cell"] = dict(subcase["cell"], max_root_decomposition_size=max(subcase["cell"]["max_root_decomposition_size"], _n_max(sub)))
+            state.reset(seed_obj=subcase)  # exactly the state the runner establishes when it replays the sub-case
+            try:
+                _check(subcase)
+            except Violation as v2:
+                v2.case = subcase
+                raise v2
+            except Exception:
+                continue
+        raise v
+
+
+def _check(case):
     r, k, cell, mode = case["recipe"], int(case["k"]), case.get("cell", {}), case.get("mode", "sample")
     cell_name = case.get("cell_name", "custom")
     head = r["op"]
@@ -816,7 +854,6 @@ def check(case):
 
         # ---- finite differences ----------------------------------------------------------------
         s0 = S0.detach().to(torch.float64).reshape(-1)
-        M = s0.numel()
         d1s, d2s, n0s, owner = [], [], [], []
         for d, t in enumerate(tape.rec):
             flat = t.reshape(-1)
